@@ -31,6 +31,8 @@ from fractions import Fraction
 from .common import parse, ExtractError, seg, find_def, lean_str, num_text_to_fraction
 from . import pyfn2lean as P
 
+find_def = P.find_unique_def      # a function defined twice / rebound at module level is an ExtractError
+
 FILES = ['FnProps.lean']
 
 D_DENS = 'chempy/properties/water_density_tanaka_2001.py'
@@ -314,6 +316,9 @@ def generate(repo):
     parts.append(P.translate_function(nsrc, ntree, 'nernst_potential', lean_name='nernstPotentialU', params=NP, units_mode=True,
                                       cond_hook=hook(True), extra_funcs=tu,
                                       doc='`nernst_potential(..., constants=None, units=u)` on quantities (the ratio has a `dimensionality`)'))
+    parts.append(P.translate_function(nsrc, ntree, 'nernst_potential', lean_name='nernstPotentialQ', params=NP, cond_hook=hook(True),
+                                      extra_funcs=tu,
+                                      doc='`nernst_potential` with constants=None, units=None and concentrations that are quantities (T a plain number)'))
     parts.append(P.translate_function(nsrc, ntree, 'nernst_potential', lean_name='nernstPotentialC', params=NP, objects=('constants',),
                                       cond_hook=hook(False),
                                       doc='`nernst_potential(..., constants=c)` with a plain-number concentration ratio'))
